@@ -12,78 +12,59 @@ Theorem C18_notes_preserved : forall psrc ptgt src tgt out,
   notes_preserved tgt out.
 Proof. exact hs_notes_preserved. Qed.
 
+(* WHOLE CHARTS.  For every pair of charts in the domain [wf] (source volumes >= 0, 16-bit hitsound sets, holds with a
+   length) whose source file names contain no ';', and every tie order of the two sorts:
+   every sound the result carries (on a note or as event sample) was in the source at that time, with multiplicity
+   — in particular no more claps / finishes / whistles per time than the source had; *)
+Theorem C18_no_invention : forall psrc ptgt src tgt out,
+  wf src tgt = true -> no_semicolon src = true ->
+  hitsound_copy psrc ptgt src tgt = Some out -> no_invention src out.
+Proof. exact hs_no_invention. Qed.
+
+(* per time as many notes sound as the source's sounds need, or all of the target's notes at that time; when
+   everything fits every clap, finish, whistle and named sample of the source is on a note; *)
+Theorem C18_bounded : forall psrc ptgt src tgt out,
+  wf src tgt = true -> no_semicolon src = true ->
+  hitsound_copy psrc ptgt src tgt = Some out -> bounded src tgt out.
+Proof. exact hs_bounded. Qed.
+
+(* every named sample of the source ends up on a result note or as an event sample at that time. *)
+Theorem C18_named_conserved : forall psrc ptgt src tgt out,
+  wf src tgt = true -> no_semicolon src = true ->
+  hitsound_copy psrc ptgt src tgt = Some out -> named_conserved src out.
+Proof. exact hs_named_conserved. Qed.
+
+(* all of it *)
+Theorem C18_spec : forall psrc ptgt src tgt out,
+  wf src tgt = true -> no_semicolon src = true ->
+  hitsound_copy psrc ptgt src tgt = Some out -> Spec src tgt out.
+Proof. exact hs_spec. Qed.
+
 (* The boolean oracle evaluated on the implementation's outputs decides the declarative specification. *)
 Theorem C18_specb_sound : forall src tgt out, specb src tgt out = true -> Spec src tgt out.
 Proof. exact specb_sound. Qed.
 Theorem C18_specb_complete : forall src tgt out, Spec src tgt out -> specb src tgt out = true.
 Proof. exact specb_complete. Qed.
 
-(* FALSE of the faithful model without guards (three defects of the pinned tree, each with its witness): *)
-Theorem C18_named_conserved_refuted :
+(* What the repairs removed: FALSE of the routine as it was before commits 19e0cd1 / a52f30c (OLD model). *)
+Theorem C18_named_conserved_OLD_refuted :
   exists psrc ptgt src tgt out,
     wf src tgt = true /\ tgt_silent tgt = true /\ no_semicolon src = true /\
-    hitsound_copy psrc ptgt src tgt = Some out /\ ~ named_conserved src out.
-Proof. exact hs_named_conserved_refuted. Qed.
+    hitsound_copy_OLD psrc ptgt src tgt = Some out /\ ~ named_conserved src out.
+Proof. exact hs_named_conserved_OLD_refuted. Qed.
 
-Theorem C18_no_invention_refuted :
+Theorem C18_no_invention_OLD_refuted :
   exists psrc ptgt src tgt out,
     wf src tgt = true /\ no_semicolon src = true /\ no_multi_overflow src tgt = true /\
-    hitsound_copy psrc ptgt src tgt = Some out /\ ~ no_invention src out.
-Proof. exact hs_no_invention_refuted. Qed.
+    hitsound_copy_OLD psrc ptgt src tgt = Some out /\ ~ no_invention src out.
+Proof. exact hs_no_invention_OLD_refuted. Qed.
 
+(* STILL FALSE of the routine (known finding named-sample-semicolon-split): a name containing ';' is cut up. *)
 Theorem C18_semicolon_refuted :
   exists psrc ptgt src tgt out,
-    wf src tgt = true /\ tgt_silent tgt = true /\ no_multi_overflow src tgt = true /\
-    hitsound_copy psrc ptgt src tgt = Some out /\ ~ no_invention src out /\ ~ named_conserved src out.
+    wf src tgt = true /\ hitsound_copy psrc ptgt src tgt = Some out
+    /\ ~ no_invention src out /\ ~ named_conserved src out.
 Proof. exact hs_semicolon_refuted. Qed.
-
-(* The slot rule at one time, for all volume groups and any number of notes at that time: as many notes are written
-   as the sounds need or all of them; never more claps/finishes/whistles than the source groups have, all of them
-   when everything fits; every (file, volume) written or sampled comes from the groups; what is lost is bounded by
-   the named samples beyond the first of each volume group, and nothing is lost (nor sampled) when everything fits. *)
-Theorem C18_slot_rule : forall off vgs free ws ss,
-  (forall vg, In vg vgs -> 0 <= fst vg) ->
-  plan_groups off vgs free = (ws, ss) ->
-  length ws = Nat.min (total_need vgs) free
-  /\ (nb 2 ws <= total_bit 2 vgs /\ nb 4 ws <= total_bit 4 vgs /\ nb 8 ws <= total_bit 8 vgs)%nat
-  /\ ((total_need vgs <= free)%nat ->
-        nb 2 ws = total_bit 2 vgs /\ nb 4 ws = total_bit 4 vgs /\ nb 8 ws = total_bit 8 vgs)
-  /\ exists rest, Permutation (group_pairs vgs) (wfile_pairs ws ++ sample_pairs ss ++ rest)
-                  /\ (length rest <= spare vgs)%nat
-                  /\ ((total_need vgs <= free)%nat -> rest = [] /\ ss = []).
-Proof. exact plan_groups_spec. Qed.
-
-(* PARTIAL (see the comment in Proofs/HitsoundCopyProofs.v): the guarded guarantees for the sounds of ONE time; their
-   lifting to whole charts is not proved and is checked by [specb] on every generated pair instead.
-   Full statements intended:  wf src tgt = true -> tgt_silent tgt = true -> no_semicolon src = true ->
-   hitsound_copy psrc ptgt src tgt = Some out -> no_invention src out /\ bounded src tgt out, and with
-   no_multi_overflow src tgt = true also named_conserved src out. *)
-Theorem C18_named_conserved_guarded_partial : forall off vgs free ws ss,
-  (forall vg, In vg vgs -> 0 <= fst vg) ->
-  plan_groups off vgs free = (ws, ss) ->
-  ((total_need vgs <= free)%nat \/ (forall vg, In vg vgs -> (length (group_files (snd vg)) <= 1)%nat)) ->
-  Permutation (group_pairs vgs) (wfile_pairs ws ++ sample_pairs ss).
-Proof. exact hs_named_conserved_guarded_partial. Qed.
-
-Theorem C18_no_invention_partial : forall off vgs free ws ss,
-  (forall vg, In vg vgs -> 0 <= fst vg) ->
-  plan_groups off vgs free = (ws, ss) ->
-  (exists rest, Permutation (group_pairs vgs) ((wfile_pairs ws ++ sample_pairs ss) ++ rest))
-  /\ (nb 2 ws <= total_bit 2 vgs)%nat /\ (nb 4 ws <= total_bit 4 vgs)%nat /\ (nb 8 ws <= total_bit 8 vgs)%nat.
-Proof. exact hs_no_invention_partial. Qed.
-
-Theorem C18_bounded_partial : forall off vgs free ws ss,
-  (forall vg, In vg vgs -> 0 <= fst vg) ->
-  plan_groups off vgs free = (ws, ss) ->
-  length ws = Nat.min (total_need vgs) free
-  /\ ((total_need vgs <= free)%nat ->
-      nb 2 ws = total_bit 2 vgs /\ nb 4 ws = total_bit 4 vgs /\ nb 8 ws = total_bit 8 vgs /\ ss = []).
-Proof. exact hs_bounded_partial. Qed.
-
-Theorem C18_slot_rule_loses_refuted :
-  exists off vgs free ws ss, plan_groups off vgs free = (ws, ss)
-    /\ ~ Permutation (group_pairs vgs) (wfile_pairs ws ++ sample_pairs ss).
-Proof. exact hs_slot_rule_loses_refuted. Qed.
 
 (* non-vacuity: a pair inside every guard (hits and holds on both sides, two volumes, a named sample, more than one
    time) on which the model runs and the full specification holds *)
@@ -94,9 +75,8 @@ Definition ex_tgt : hmap :=
   mkM [mkN 8 0 None 0 1 0 0 0 [0]; mkN 8 1 None 0 0 0 0 70 [0]; mkN 8 2 None 0 0 0 0 0 [0]; mkN 16 2 None 0 0 0 0 0 [0]]
       [mkN 8 3 (Some 80) 0 0 0 0 0 [0]; mkN 24 3 (Some 8) 0 0 0 0 0 [0]] [].
 Example C18_nonvacuous :
-  wf ex_src ex_tgt = true /\ tgt_silent ex_tgt = true /\ no_semicolon ex_src = true /\ no_multi_overflow ex_src ex_tgt = true
+  wf ex_src ex_tgt = true /\ no_semicolon ex_src = true
   /\ exists out, hitsound_copy [0;1;2;4;5;3]%nat [0;1;2;4;3;5]%nat ex_src ex_tgt = Some out /\ specb ex_src ex_tgt out = true.
 Proof.
-  split; [vm_compute; reflexivity|]. split; [vm_compute; reflexivity|]. split; [vm_compute; reflexivity|].
-  split; [vm_compute; reflexivity|]. eexists. split; [vm_compute; reflexivity|]. vm_compute. reflexivity.
+  split; [vm_compute; reflexivity|]. split; [vm_compute; reflexivity|]. eexists. split; [vm_compute; reflexivity|]. vm_compute. reflexivity.
 Qed.
